@@ -1460,6 +1460,24 @@ def r6_tag_policy(ctx):
     ctx.check(R, "count-compared-with-small-constants-only", all(c <= 2 for c in consts), "integer constants the tag count is compared with: %s (representatives 0..3 cover every outcome)" % sorted(consts), vt)
 
 
+def r8_macro_tag_config_defaults(ctx):
+    """Added after adversary change C02-N (the proc-macro's mirror of TagConfig, `ApiTagConfig`, got `#[serde(default = "..")]` with a helper
+    returning true for `allow_other_tags`: an `#[api_description { tag_config = { tags = {..} } }]` that omits the flag then accepted
+    endpoints with tags outside the declared list, which the tag policy refuses): a `tag_config` that does not say `allow_other_tags`
+    means `false` -- the parser of the macro argument fills a missing flag from `Default` (or `missing_field`), not from a helper of its own."""
+    R = ctx.rule("C02.R8", "the api_description macro parses `tag_config` with the documented defaults: a missing `allow_other_tags` is bool's default (false); no crate-local default function is consulted", floor=1)
+    ep = ctx.ep
+    vis = [f for k, f in ep.F.items() if "ApiTagConfig" in k and "Deserialize" in k and re.search(r"::visit_(map|seq)$", k)]
+    if not vis:
+        ctx.lost(R, "the Deserialize visitors of dropshot_endpoint's ApiTagConfig")
+        return
+    for f in vis:
+        # (a crate-local helper the rules do not know is inlined by the engine: it shows in the list of inlined bodies)
+        local = sorted(set(t["callee"] for b, t in f.live_calls() if re.search(r"^api_trait::(?!_::)", t.get("callee") or "")) |
+                       set(x for x in (f.raw.get("inlined") or []) if re.search(r"^api_trait::(?!_::)", x) and "{closure" not in x))
+        ctx.check(R, "no-custom-default:%s" % f.id.rsplit("::", 1)[-1], not local, "crate-local functions consulted while parsing tag_config: %s" % (local or "none"), f)
+
+
 def r7_versioned_routes_refused_on_unversioned_server(ctx):
     """`whenever registration succeeds no request can match two endpoints`: on a server without a version policy every request matches every
     version range, so two endpoints that differ only in their ranges are ambiguous there -- the router remembers (stickily) that it holds a
@@ -1470,7 +1488,7 @@ def r7_versioned_routes_refused_on_unversioned_server(ctx):
     c01.r7_versioned_routes_need_versioned_server(Renamed(ctx, "C02.R7", "a router holding any version-restricted endpoint says so, whatever was registered after it, and an unversioned server refuses it"))
 
 
-RULES = [("C02.R7", r7_versioned_routes_refused_on_unversioned_server), ("C02.R1", r1_validation_before_insert), ("C02.R2", r2_conflict_table), ("C02.R3", r3_shape), ("C02.R4", r4_version_conflicts), ("C02.R4E2", r4e2_overlap_table),
+RULES = [("C02.R8", r8_macro_tag_config_defaults), ("C02.R7", r7_versioned_routes_refused_on_unversioned_server), ("C02.R1", r1_validation_before_insert), ("C02.R2", r2_conflict_table), ("C02.R3", r3_shape), ("C02.R4", r4_version_conflicts), ("C02.R4E2", r4e2_overlap_table),
          ("C02.R5", r5_parameter_rules), ("C02.R5b", r5b_scalar_check_is_total), ("C02.R6", r6_tag_policy)]
 
 RT = "dropshot/src/router.rs"
